@@ -1,5 +1,6 @@
 import NmlVerif.Proofs.Glue
 import NmlVerif.Proofs.NetBuilder
+import NmlVerif.Model.ParserReuse
 /-!
 # C07 — a load's result depends on its input alone: no history or interleaving effects
 
@@ -84,6 +85,81 @@ theorem c07_all_entries_history_independent (t : Table) (hv : t.violations = [])
   fun e he a h h' hh hh' g =>
     c07_history_independent t sem hsem e he (violations_eq_nil_iff.1 hv e he) a h h' hh hh' g
 
+/-! ## configuration switches: the result is a function of the input AND of the switches' current values
+
+`env` are configuration variables (the global `build_time_validation.ENABLED` switch): entry points do read them before
+anybody in the call writes them, and the user's configuration calls (`enable/disable_build_time_validation`) write them.
+They are not "history": the statement below makes their current value an explicit part of the input. -/
+
+/-- **History independence modulo configuration.**  As `c07_history_independent_inv`, for an entry whose read-first
+    variables that anybody writes are memo caches (`ign`) or configuration variables (`env`): after ANY two histories
+    of calls of entries of `t` (configuration calls included) that leave the configuration variables with the same
+    values, the call returns the same result. -/
+theorem c07_history_independent_env (t : Table) (Inv : GState V → Prop) (ign env : List Nat)
+    (sem : EntrySummary → A → GState V → GState V × R)
+    (hsem : ∀ e ∈ t.entries, ∀ a, RespectsInv Inv ign (sem e a) e.rbw e.writes)
+    (e : EntrySummary) (he : e ∈ t.entries) (hok : e.badIgn t.written (ign ++ env) = []) (a : A)
+    (h h' : List (Call A)) (hh : ∀ c ∈ h, c.entry ∈ t.entries) (hh' : ∀ c ∈ h', c.entry ∈ t.entries)
+    (g : GState V) (hg : Inv g) (henv : AgreeOn env (runHist sem h g) (runHist sem h' g)) :
+    (sem e a (runHist sem h g)).2 = (sem e a (runHist sem h' g)).2 := by
+  have frame : ∀ (l : List (Call A)), (∀ c ∈ l, c.entry ∈ t.entries) →
+      Inv (runHist sem l g) ∧ AgreeOff t.written (runHist sem l g) g := by
+    intro l hl
+    exact runHist_frame_inv Inv ign sem t.written l g hg (fun c hc => hsem c.entry (hl c hc) c.arg)
+      (fun c hc v hv => mem_written.2 ⟨c.entry, hl c hc, hv⟩)
+  have f1 := frame h hh
+  have f2 := frame h' hh'
+  refine (hsem e he a).reads _ _ f1.1 f2.1 ?_
+  intro v hv
+  simp only [List.mem_filter, Bool.not_eq_true', List.contains_eq_mem, decide_eq_false_iff_not] at hv
+  by_cases hve : v ∈ env
+  · exact henv v hve
+  · exact (f1.2.trans f2.2.symm) v
+      (badIgn_eq_nil_iff.1 hok v hv.1 (fun hm => (List.mem_append.1 hm).elim hv.2 hve))
+
+/-- histories none of whose calls writes a configuration variable leave the configuration as it was -/
+theorem c07_loader_histories_keep_env (t : Table) (Inv : GState V → Prop) (ign env : List Nat)
+    (sem : EntrySummary → A → GState V → GState V × R)
+    (hsem : ∀ e ∈ t.entries, ∀ a, RespectsInv Inv ign (sem e a) e.rbw e.writes)
+    (h : List (Call A)) (hh : ∀ c ∈ h, c.entry ∈ t.entries ∧ ∀ v ∈ c.entry.writes, v ∉ env)
+    (g : GState V) (hg : Inv g) : AgreeOn env (runHist sem h g) g := by
+  have := (runHist_frame_inv Inv ign sem (t.written.filter (fun v => !env.contains v)) h g hg
+    (fun c hc => hsem c.entry (hh c hc).1 c.arg)
+    (fun c hc v hv => by
+      simp only [List.mem_filter, Bool.not_eq_true', List.contains_eq_mem, decide_eq_false_iff_not]
+      exact ⟨mem_written.2 ⟨c.entry, (hh c hc).1, hv⟩, (hh c hc).2 v hv⟩)).2
+  intro v hv
+  exact this v (by simp [hv])
+
+/-- **History independence for histories of loader calls.**  When the histories contain no configuration call (no
+    call that writes a configuration variable), no hypothesis about the switches is left: same result after any two
+    such histories, from any starting configuration. -/
+theorem c07_history_independent_loader_histories (t : Table) (Inv : GState V → Prop) (ign env : List Nat)
+    (sem : EntrySummary → A → GState V → GState V × R)
+    (hsem : ∀ e ∈ t.entries, ∀ a, RespectsInv Inv ign (sem e a) e.rbw e.writes)
+    (e : EntrySummary) (he : e ∈ t.entries) (hok : e.badIgn t.written (ign ++ env) = []) (a : A)
+    (h h' : List (Call A)) (hh : ∀ c ∈ h, c.entry ∈ t.entries ∧ ∀ v ∈ c.entry.writes, v ∉ env)
+    (hh' : ∀ c ∈ h', c.entry ∈ t.entries ∧ ∀ v ∈ c.entry.writes, v ∉ env) (g : GState V) (hg : Inv g) :
+    (sem e a (runHist sem h g)).2 = (sem e a (runHist sem h' g)).2 :=
+  c07_history_independent_env t Inv ign env sem hsem e he hok a h h' (fun c hc => (hh c hc).1)
+    (fun c hc => (hh' c hc).1) g hg
+    (fun v hv => (c07_loader_histories_keep_env t Inv ign env sem hsem h hh g hg v hv).trans
+      (c07_loader_histories_keep_env t Inv ign env sem hsem h' hh' g hg v hv).symm)
+
+/-- the configuration hypothesis is needed: a switch (variable 0) written by a configuration entry (entry 1) and
+    read by a loader entry (entry 0) — the loader's result differs after the history `[flip]` -/
+example : ∃ (sem : EntrySummary → Unit → GState Bool → GState Bool × Bool) (t : Table) (e : EntrySummary),
+    (∀ e ∈ t.entries, ∀ a, RespectsInv (fun _ => True) [] (sem e a) e.rbw e.writes) ∧ e ∈ t.entries ∧
+    e.badIgn t.written ([] ++ [0]) = [] ∧
+    (sem e () (runHist sem [⟨⟨1, true, [], [0]⟩, ()⟩] (fun _ => true))).2 ≠ (sem e () (runHist sem [] (fun _ => true))).2 := by
+  refine ⟨fun e _ g => if e.name = 1 then (fun v => if v = 0 then false else g v, true) else (g, g 0),
+    ⟨[], [⟨0, true, [0], []⟩, ⟨1, true, [], [0]⟩]⟩, ⟨0, true, [0], []⟩, ?_, by simp, by decide, by simp [runHist]⟩
+  intro e he a
+  simp only [List.mem_cons, List.not_mem_nil, or_false] at he
+  rcases he with rfl | rfl
+  · exact ⟨fun g v _ => rfl, fun _ _ => trivial, fun g g' _ _ h => by simpa using h 0 (by simp)⟩
+  · exact ⟨fun g v hv => by simp at hv; simp [hv], fun _ _ => trivial, fun _ _ _ _ _ => rfl⟩
+
 /-! ## interleavings -/
 
 variable {σ α β ca cb L : Type}
@@ -150,6 +226,40 @@ theorem c07_interleaving_summary (t : Table) (Inv : GState V → Prop) (ign : Li
   rw [hes.1, hes.2] at this
   exact this
 
+/-! ## any number of builders -/
+
+/-- **Every interleaving of any number of builders** whose handlers ignore the shared component leaves every builder
+    in the state of its solo run (the two-builder statement is the case of two indices). -/
+theorem c07_n_interleaving_independent {c : Type} (S : SysN σ α c)
+    (hiso : ∀ s s' x k, (S.step s x k).2 = (S.step s' x k).2)
+    (es : List (Nat × c)) (s : σ) (f : Nat → α) (i : Nat) :
+    (runN S es (s, f)).2 i = (soloN S (projN i es) (s, f i)).2 :=
+  runN_eq_solo S (P := fun _ => True) (Rel := fun _ _ => True)
+    ⟨fun _ _ _ => trivial, fun _ _ _ _ _ => trivial, fun _ _ _ _ => trivial,
+     fun s s' x k _ _ _ => hiso s s' x k, fun _ _ _ _ => trivial⟩ es s f i trivial
+
+/-- **Any number of builders, driven by the extracted summaries**: handler calls that are entries of `t` reading
+    first nothing anybody writes (memo caches `ign` aside); every schedule over any number of builders, from every
+    shared state satisfying the invariant, leaves builder `i` in the state of its solo run. -/
+theorem c07_n_interleaving_summary (t : Table) (Inv : GState V → Prop) (ign : List Nat)
+    (hsem : EntrySummary → A → GState V → L → GState V × L)
+    (hresp : ∀ e ∈ t.entries, ∀ a, RespectsLocal Inv ign (hsem e a) e.rbw e.writes)
+    (es : List (Nat × {c : Call A // c.entry ∈ t.entries ∧ c.entry.badIgn t.written ign = []}))
+    (g : GState V) (hg : Inv g) (f : Nat → L) (i : Nat) :
+    let S : SysN (GState V) L _ := ⟨fun g l c => hsem c.1.entry c.1.arg g l⟩
+    (runN S es (g, f)).2 i = (soloN S (projN i es) (g, f i)).2 := by
+  intro S
+  refine runN_eq_solo S (P := Inv) (Rel := AgreeOff t.written)
+    ⟨fun _ _ h => h.symm, fun _ _ _ h h' => h.trans h', fun g l c hi => (hresp c.1.entry c.2.1 c.1.arg).inv g l hi,
+     ?_, ?_⟩ es g f i hg
+  · intro g g' l c hi hi' hag
+    refine (hresp c.1.entry c.2.1 c.1.arg).reads g g' l hi hi' ?_
+    intro v hv
+    simp only [List.mem_filter, Bool.not_eq_true', List.contains_eq_mem, decide_eq_false_iff_not] at hv
+    exact hag v (badIgn_eq_nil_iff.1 c.2.2 v hv.1 hv.2)
+  · intro g l c _ v hv
+    exact (hresp c.1.entry c.2.1 c.1.arg).frame g l v (fun hm => hv (mem_written.2 ⟨c.1.entry, c.2.1, hm⟩))
+
 /-! ## reading the decidable table check -/
 
 /-- `okModulo` read logically -/
@@ -214,6 +324,103 @@ theorem c07_world_private (es : List (Bool × HCall)) (w : World) (who : Bool) :
     (runWorld Cfg.allPrivate es w).get who = brun (callsOf who es) (w.get who) :=
   runWorld_private es w who
 
+/-- **Any number of builders with per-instance tables**: whatever the schedule over builders `0, 1, 2, …`, builder
+    `i` ends with the document it builds alone from its own calls. -/
+theorem c07_n_builders_independent (es : List (Nat × HCall)) (f : Nat → BState) (i : Nat) :
+    (runN (⟨fun _ s c => ((), bstep s c)⟩ : SysN Unit BState HCall) es ((), f)).2 i = brun (projN i es) (f i) := by
+  have h := c07_n_interleaving_independent (⟨fun _ s c => ((), bstep s c)⟩ : SysN Unit BState HCall)
+    (fun _ _ _ _ => rfl) es () f i
+  rw [h]
+  have solo : ∀ (cs : List HCall) (s : BState),
+      (soloN (⟨fun _ s c => ((), bstep s c)⟩ : SysN Unit BState HCall) cs ((), s)).2 = brun cs s := by
+    intro cs
+    induction cs with
+    | nil => intro s; rfl
+    | cons c cs ih => intro s; simp only [soloN, brun]; exact ih (bstep s c)
+  exact solo _ _
+
+/-! ## one object used again: the n-th `parse` on the same parser, the n-th document on the same builder
+
+A loader call through the module-level functions makes its own parser and builder; whoever drives
+`NeuroMLHdf5Parser` / `NeuroMLXMLParser` / `NetworkBuilder` directly can use one object for several files.  The
+property's "n-th identical call" then is the n-th call ON THAT OBJECT. -/
+
+open NmlVerif.ParserReuse in
+/-- **full statement (HDF5 parser object)**: what `parse(f)` hands to the handler and what `parse(f); get_nml_doc()`
+    returns does not depend on the files parsed before with the same parser object -/
+def c07_parser_reuse_full (reset : Bool) : Prop :=
+  ∀ (hist : List H5File) (f : H5File),
+    popCompObjs reset (runParses reset hist {}) f = popCompObjs reset {} f ∧
+    getDocOpt reset (runParses reset hist {}) f = getDocOpt reset {} f
+
+open NmlVerif.ParserReuse in
+/-- the repaired parser (`parse` starts from the attributes of a new parser) satisfies it -/
+theorem c07_parser_reuse_repaired : c07_parser_reuse_full true := by
+  intro hist f
+  simp [popCompObjs, getDocOpt, parse]
+
+open NmlVerif.ParserReuse in
+/-- **today's parser does not**: after a file with embedded XML, a file written with `embed_xml=False` gets the first
+    file's component object for its population (and, optimized, the first file's components in its document); after a
+    file with a network, a file without one returns the first file's network instead of raising -/
+theorem c07_parser_reuse_today_witness : ¬ c07_parser_reuse_full false := by
+  intro h
+  have := (h [⟨"docA", some [("cell0", "IzhikevichCell:cell0")], some "netA", [("pop0", "cell0")]⟩]
+    ⟨"docC", none, some "netC", [("pop0", "cell0")]⟩).1
+  revert this
+  decide
+
+open NmlVerif.ParserReuse in
+/-- **what holds today**: a file that carries its embedded XML and has a network group (what
+    `NeuroMLHdf5Writer.write` produces by default for a document with a network) is parsed the same way whatever the
+    parser object has parsed before — any history, any state -/
+theorem c07_parser_reuse_partial (st : PState) (f : H5File) (he : f.embedded.isSome) (hn : f.network.isSome) :
+    popCompObjs false st f = popCompObjs false {} f ∧ getDocOpt false st f = getDocOpt false {} f := by
+  cases hE : f.embedded with
+  | none => simp [hE] at he
+  | some e =>
+    cases hN : f.network with
+    | none => simp [hN] at hn
+    | some n => simp [popCompObjs, getDocOpt, parse, hE, hN]
+
+open NmlVerif.ParserReuse in
+/-- the partial statement is not vacuous, and is tight in both hypotheses -/
+example : (⟨"d", some [("c", "C:c")], some "n", [("p", "c")]⟩ : H5File).embedded.isSome ∧
+    getDocOpt false ⟨none, some "old"⟩ ⟨"d", some [], none, []⟩ ≠ getDocOpt false {} ⟨"d", some [], none, []⟩ ∧
+    popCompObjs false ⟨some [("c", "C:c")], none⟩ ⟨"d", none, some "n", [("p", "c")]⟩ ≠
+      popCompObjs false {} ⟨"d", none, some "n", [("p", "c")]⟩ := by decide
+
+/-- **full statement (builder object)**: the document a builder shows after `handle_document_start` and any further
+    handler calls does not depend on the documents it built before -/
+def c07_builder_reuse_full (reset : Bool) : Prop :=
+  ∀ (hist cs : List HCall) (id : String) (notes : Option String),
+    view (brunR reset (.docStart id notes :: cs) (brunR reset hist {})) = view (brunR reset (.docStart id notes :: cs) {})
+
+/-- the repaired builder (`handle_document_start` forgets `self.network` and the seven tables) satisfies it -/
+theorem c07_builder_reuse_repaired : c07_builder_reuse_full true := by
+  intro hist cs id notes
+  simp [brunR, bstepR, HCall.isDocStart]
+
+/-- first document of the witness: declares population `pop` -/
+def witReuse1 : List HCall := [.docStart "A" none, .network "netA" none none, .population "pop" "izA" 2 none [] none]
+
+/-- second document of the witness: a location for a population that this document never declares -/
+def witReuse2 : List HCall := [.network "netB" none none, .location "0" "pop" (some ("0.0", "0.0", "0.0"))]
+
+/-- **today's builder does not**: after a document that declares population `pop`, a document with a dangling
+    reference to `pop` is accepted silently (the instance lands in the OLD document's population) instead of raising
+    `KeyError` -/
+theorem c07_builder_reuse_today_witness : ¬ c07_builder_reuse_full false := by
+  intro h
+  have := h witReuse1 witReuse2 "B" none
+  revert this
+  decide
+
+/-- on a new builder, and on the repaired one after any history, the dangling reference is refused -/
+example : (view (brunR false (.docStart "B" none :: witReuse2) {})).err = some "KeyError" ∧
+    (view (brunR true (.docStart "B" none :: witReuse2) (brunR true witReuse1 {}))).err = some "KeyError" ∧
+    (view (brunR false (.docStart "B" none :: witReuse2) (brunR false witReuse1 {}))).err = none := by decide
+
 /-! ## witnesses: the hypotheses are needed and satisfiable -/
 
 /-- the interleaving of the reproduction: A and B both declare a population `pop`; A's locations arrive after B's
@@ -222,7 +429,7 @@ def witA : List HCall := [.docStart "A" none, .network "netA" none none, .popula
   .location "0" "pop" (some ("0.0", "0.0", "0.0")), .location "1" "pop" (some ("1.0", "0.0", "0.0"))]
 def witB : List HCall := [.docStart "B" none, .network "netB" none none, .population "pop" "izB" 3 none [] none]
 def witSched : List (Bool × HCall) :=
-  (witA.take 3).map (true, ·) ++ witB.map (false, ·) ++ (witA.drop 3).map (true, ·)
+  witReuse1.map (true, ·) ++ witB.map (false, ·) ++ (witA.drop 3).map (true, ·)
 
 /-- **Class-level tables (the code before the repair) violate the property**: in this interleaving builder A ends
     without its two instances — they landed in B's population. -/
